@@ -28,6 +28,9 @@ type RPC struct {
 	DelayUS   int64  `json:"delay_us"` // now: reply after this delay (< timeout); late: timeout + this
 	Marker    string `json:"marker"`
 	Op        string `json:"op"`
+	// GapUS: the caller waits this long before issuing the call (a late reply of the previous call
+	// can arrive in that gap and share a read with the echo of this request)
+	GapUS int64 `json:"gap_us,omitempty"`
 }
 
 // Case is a session.
@@ -124,6 +127,20 @@ func gen(t *rapid.T) Case {
 			r.DelayUS = int64(rapid.IntRange(1, 8000).Draw(t, "lateUS"))
 		}
 
+		if i > 0 {
+			prev := c.RPCs[i-1]
+
+			switch rapid.IntRange(0, 3).Draw(t, "gapKind") {
+			case 0:
+				if prev.Behaviour == "late" {
+					// the late reply lands a few microseconds before this request is written
+					r.GapUS = prev.DelayUS + int64(rapid.IntRange(1, 60).Draw(t, "gapAfterLate"))
+				}
+			case 1:
+				r.GapUS = int64(rapid.SampledFrom([]int{10, 50, 137, 1000, 9000}).Draw(t, "gapUS"))
+			}
+		}
+
 		c.RPCs = append(c.RPCs, r)
 	}
 
@@ -205,6 +222,10 @@ func run(c Case) ev.Verdict {
 	for i, spec := range c.RPCs {
 		timeout := time.Duration(spec.TimeoutUS) * time.Microsecond
 		oo := []util.Option{opoptions.WithTimeoutOps(timeout)}
+
+		if spec.GapUS > 0 {
+			time.Sleep(time.Duration(spec.GapUS) * time.Microsecond)
+		}
 
 		t0 := time.Now()
 
@@ -289,6 +310,12 @@ func run(c Case) ev.Verdict {
 
 		if sawLate {
 			lateThenNormal = true
+		}
+	}
+
+	if os.Getenv("DBG_CASE") != "" {
+		for _, e := range pipe.Events() {
+			fmt.Printf("%s @%v len=%d %.70q\n", e.Kind, e.At, len(e.Data), e.Data)
 		}
 	}
 
